@@ -175,6 +175,7 @@ def build_evidence(prop, cfg, tier, seed, pres, bres, nviol, known_hit, wall, fa
             "back_ends": pres["backends"],
             "solver_time_s": pres["solver_time_s"],
             "not_proved": pres["not_proved"],
+            "heavy_contracts_verified_in_thorough_tier_only": pres.get("not_run_in_quick", []),
             "native_contract_evaluations": pres["native"],
             "proof_samples": pres["samples"],
         })
